@@ -72,8 +72,15 @@ Section Machine.
     | OMerge d ks =>
         (* the observation is what merge_regions sizes the new region for: the sources' used bytes *)
         ([BVal (UL (map UN (fold_left padd (map (fun k => r_used (m_res M) (s_st (get_slot sl k))) ks) [])))], Some (set_slot sl d {| s_st := merge R (map (fun k => s_st (get_slot sl k)) ks); s_log := [] |}))
-    | OClone d k | OCloneFrom d k =>
+    | OClone d k =>
         ([BNone], Some (set_slot sl d (get_slot sl k)))
+    | OCloneFrom d k =>
+        (* slot d .clone_from(slot k): field by field, as the Rust impls do (Region/CloneFrom.v) *)
+        let src := get_slot sl k in
+        match m_clone M with
+        | Some C => ([BNone], Some (set_slot sl d {| s_st := r_clone_from C (s_st (get_slot sl d)) (s_st src); s_log := s_log src |}))
+        | None => ([BNone], Some (set_slot sl d src))
+        end
     | OPushItem d k j owned =>
         let src := get_slot sl k in
         let dst := get_slot sl d in
